@@ -127,6 +127,8 @@ xpoll(xpollfd_t pfd, struct timeval *tv)
                 err_exit(true, "gettimeofday");
             timersub(&end, &start, &delta);     /* delta = end - start */
             timersub(tv, &delta, tvp);          /* *tvp = tv - delta */
+            if (tvp->tv_sec < 0)                /* timeout already ran out: */
+                timerclear(tvp);                /*  a negative value would block */
         }
     } while (n < 0);
     return n;
